@@ -88,6 +88,25 @@ def pNode : P (Node Nat) := do
     let ar ← pList (pList pNat)
     pure (.struct { fn := fun sc ar ovs => mix salt sc ar (ovs.map (·.getD 0)), scalars := sc, arrays := ar, cache := 0, version := 0,
                     remembered := none, flag := false })
+  else if t == "E" then
+    -- a FAILING processor (harness `c13Failing`): when the mixed value is divisible by `fail`, `Process()` returns
+    -- ((h*7+3) % M, error); `nodes.Struct.process()` stores that value and bumps the version all the same
+    let salt ← pNat
+    let fail ← pNat
+    let sc ← pList pOptNat
+    let ar ← pList (pList pNat)
+    pure (.struct { fn := fun sc ar ovs =>
+                      let h := mix salt sc ar (ovs.map (·.getD 0))
+                      if fail > 0 && h % fail == 0 then (h * 7 + 3) % M else h,
+                    scalars := sc, arrays := ar, cache := 0, version := 0, remembered := none, flag := false })
+  else if t == "R" then
+    -- the repo's `stl.ReadNode` over a `parameter.File`: even code = a well-formed STL (the mesh of that code),
+    -- odd code = the same upload cut short: `ReadMesh` fails, the node yields the empty mesh (code 0) and an error
+    let _salt ← pNat
+    let sc ← pList pOptNat
+    let ar ← pList (pList pNat)
+    pure (.struct { fn := fun _ _ vs => let v := (vs.headD none).getD 0; if v % 2 == 1 then 0 else v,
+                    scalars := sc, arrays := ar, cache := 0, version := 0, remembered := none, flag := false })
   else if t == "B" then
     -- the repo's binary producer `basics.BinaryNode` over a `parameter.File`: the artifact IS the
     -- file content (identity on the single input)
@@ -181,11 +200,19 @@ def isRejectedOnParam (arr : Array (Node Nat)) : Call Nat → Bool
     number of `UpdateParameter` calls so far that reached `incModelVersion`: the accepted ones AND the
     ones whose message did not decode (`ub` on a parameter: response `err`, parameter versions
     unchanged, mv + 1); a call that panics in `i.Parameter` (no parameter / unknown id) never reaches it. -/
-def runSeq (obs : Bool) (N : Nat) : Array (Node Nat) → Nat → List (Call Nat) → List String
+def structVersions (arr : Array (Node Nat)) : List Nat :=
+  arr.toList.filterMap fun n => match n with
+    | .param _ _ => none
+    | .struct s => some s.version
+
+def runSeq (obs : Nat) (N : Nat) : Array (Node Nat) → Nat → List (Call Nat) → List String
   | _, _, [] => []
   | arr, mv, c :: cs =>
     let blk := fun (r : String) (a : Array (Node Nat)) (m : Nat) =>
-      if obs then s!"{r} pv {" ".intercalate ((paramVersions a).map toString)} mv {m}" else r
+      if obs == 1 then s!"{r} pv {" ".intercalate ((paramVersions a).map toString)} mv {m}"
+      else if obs == 2 then
+        s!"{r} pv {" ".intercalate ((paramVersions a).map toString)} sv {" ".intercalate ((structVersions a).map toString)} mv {m}"
+      else r
     if callNode c ≥ N then
       blk "err" arr mv :: runSeq obs N arr mv cs
     else
@@ -196,7 +223,7 @@ def runSeq (obs : Bool) (N : Nat) : Array (Node Nat) → Nat → List (Call Nat)
 
 /-- `c13.seq` (obs = true: blocks with pv/mv) and `c13.http.seq` (obs = false: the same fold of
     `seqStep`, the calls went through the edit server's HTTP handlers, only the responses are seen) -/
-def handleSeq (obs : Bool) : P String := do
+def handleSeq (obs : Nat) : P String := do
   let ns ← pList pNode
   let calls ← pList pCall
   pEnd
@@ -491,12 +518,46 @@ def handleImmutable : P String := do
   pEnd
   pure (Driver.boolStr (ps.all fun (a, b) => a == b))
 
+/-! ### sequential snapshot oracle -/
+
+/-- The predicate of `artifact_snapshot` / `paramData_snapshot` / `snapshot_params` on a SEQUENTIAL run (the
+    linearization is the call order): the parameter valuation is the initial one overwritten by the accepted
+    updates so far; every `Artifact` response is `Spec` — the from-scratch evaluation, no cache, version or
+    remembered list is looked at — of exactly that valuation; every `ParameterData` response is the current
+    value; an update of a non-parameter / unknown id and a REJECTED message answer `err` and change nothing
+    (`rejected_message_noop`: the reads after it are judged against the unchanged valuation). -/
+def snapshotOk (N : Nat) : Array (Node Nat) → List (Call Nat × Resp Nat) → Bool
+  | _, [] => true
+  | arr, (c, r) :: rest =>
+    if callNode c ≥ N then decide (r = .err) && snapshotOk N arr rest else
+    match c with
+    | .update p v =>
+      (match arr[p]? with
+       | some (.param _ n) => decide (r = .ok) && snapshotOk N (arr.set! p (.param v (n+1))) rest
+       | _ => decide (r = .err) && snapshotOk N arr rest)
+    | .updateRejected _ => decide (r = .err) && snapshotOk N arr rest
+    | .paramData p =>
+      (match arr[p]? with
+       | some (.param x _) => decide (r = .val x) && snapshotOk N arr rest
+       | _ => decide (r = .err) && snapshotOk N arr rest)
+    | .artifact i => decide (r = .val (Spec (N+1) (graphOf arr) i)) && snapshotOk N arr rest
+
+def handleSnapshot : P String := do
+  let ns ← pList pNode
+  let crs ← pList (do let c ← pCall; let r ← pResp; pure (c, r))
+  pEnd
+  if !wfNodes ns then failure
+  pure (Driver.boolStr (snapshotOk ns.length ns.toArray crs))
+
 /-- one request -> one answer line; `none` = unknown op / malformed -/
 def handle (op : String) (args : List String) : Option String :=
   match op with
   | "c13.holds.results_immutable" => (handleImmutable.run args).map (·.1)
-  | "c13.seq" => ((handleSeq true).run args).map (·.1)
-  | "c13.http.seq" => ((handleSeq false).run args).map (·.1)
+  | "c13.seq" => ((handleSeq 1).run args).map (·.1)
+  | "c13.seqx" => ((handleSeq 2).run args).map (·.1)
+  | "c13.http.seq" => ((handleSeq 0).run args).map (·.1)
+  | "c13.holds.artifact_snapshot" => (handleSnapshot.run args).map (·.1)
+  | "c13.holds.rejected_message_noop" => (handleImmutable.run args).map (·.1)
   | "c13.holds.linearizable" => ((handleLin false).run args).map (·.1)
   | "c13.debug.search" => ((handleLin true).run args).map (·.1)
   | _ => none
